@@ -77,8 +77,12 @@ def check_format(prog, src, width, res, desc, family):
         res.nontriv((src, width))
     qp = prog is not None and c08.has_qprint(prog.skeleton)
     tail = 'qprint' if qp else (c08.stat_kinds(prog) if prog is not None else 'degenerate')
+    chunks = None
+    if desc in ('lines', 'token-per-line'):
+        parts = src.split(b'\n')
+        chunks = [p_ + b'\n' for p_ in parts[:-1]] + ([parts[-1]] if parts[-1] else [])
     try:
-        obj, out = fmt(src, width)
+        obj, out = fmt(src, width, chunks)
     except Exception as e:
         res.violation('C09|raise|%s|%s|%s' % (type(e).__name__, 'no-final-newline' if not src.endswith((b'\n', b' ')) else 'nl',
                                                tail),
